@@ -430,7 +430,7 @@ PROPS["C18"] = dict(
         dict(name="prod-hsw", src="mutation_harness.cpp", cfg="prod-hsw", env={}, args=["--prop", "C18"]),
         dict(name="prod-wsm", src="mutation_harness.cpp", cfg="prod-wsm", env={}, args=["--prop", "C18"]),
     ],
-    require=["pairs:model-equal", "pairs:model-different", "triples(transitivity)", "variant:member-permuted", "variant:number-kind-changed",
+    require=["equality-after-source-document-events", "pairs:model-equal", "pairs:model-different", "triples(transitivity)", "variant:member-permuted", "variant:number-kind-changed",
              "pairs:objects-with-long-shared-prefix-keys(map on one side)", "scalar-comparisons(node == bool/int/uint/double/string)",
              "pairs:across-allocator-types", "history:null-from-moved-from-node", "history:const-strings-sharing-an-address",
              "history:lookup-map-present", "deep-copy/parse-of-dump-checks"],
